@@ -231,6 +231,17 @@ do_drain(int id) {
 	r->m_ready = 0;
 }
 
+/* "programs exactly the equivalent interval ... one-shot or periodic": what the library handed to timerfd_settime() for
+ * the flags of THIS call (3600 s; repeating iff neither ONESHOT nor DISPATCH) */
+static void
+check_timer_program(int flags, const char *what) {
+	long want_iv = (0 != (flags & (TP_F_ONESHOT | TP_F_DISPATCH))) ? 0 : 3600;
+	if (3600 != rec_spec.it_value.tv_sec || 0 != rec_spec.it_value.tv_nsec)
+		hfail("timer-value", "%s of a 3600 s timer programmed it_value = %ld s %ld ns", what, (long)rec_spec.it_value.tv_sec, (long)rec_spec.it_value.tv_nsec);
+	else if (want_iv != rec_spec.it_interval.tv_sec || 0 != rec_spec.it_interval.tv_nsec)
+		hfail("timer-interval", "%s with flags %#x programmed it_interval = %ld s, want %ld s", what, flags, (long)rec_spec.it_interval.tv_sec, want_iv);
+}
+
 static void
 apply_step(const step_t *s) {
 	reg_t *r = &R[s->id];
@@ -268,7 +279,7 @@ apply_step(const step_t *s) {
 			break;
 		}
 		r->m_reg = 1; r->m_en = 1; r->m_event = s->a; r->m_flags = s->b;
-		if (ID_T == s->id) r->m_ready = 0;
+		if (ID_T == s->id) { r->m_ready = 0; check_timer_program(s->b, "add"); }
 		break;
 	case S_ENABLE1:
 	case S_ENABLEF:
@@ -283,7 +294,10 @@ apply_step(const step_t *s) {
 			hfail("enable-refused", "enable of a registered event refused rc=%d", rc);
 		else {
 			r->m_en = 1;
-			if (ID_T == s->id) r->m_ready = 0; /* re-armed */
+			if (ID_T == s->id) {
+				r->m_ready = 0; /* re-armed */
+				if (S_ENABLEF == s->op) check_timer_program(r->m_flags, "enable (with arguments)");
+			}
 		}
 		break;
 	case S_DISABLE:
@@ -443,7 +457,7 @@ run_history(void) {
 	if (0 != rc)
 		vh_fail("harness", "attach_first rc=%d", rc);
 	/* user-owned timer: remove before destroying, as an application would */
-	if (R[ID_T].m_reg)
+	if (NULL != R[ID_T].ud.tpt)	/* whatever the model thinks: a timerfd the library still holds is closed only by a delete */
 		tpt_ev_del_args1(TP_EV_TIMER, &R[ID_T].ud);
 	if (R[ID_P].m_reg)
 		tpt_ev_del_args1(TP_EV_PROC, &R[ID_P].ud);
@@ -491,7 +505,7 @@ enumerate(int depth, abs_t a) {
 			for (e = 0; e < 2; e ++) {
 				if (ID_A == id && TP_EV_READ != e) continue;
 				if (ID_T == id && 0 != e) continue;
-				if (ID_B != id && a.reg[id]) continue;	/* re-add only explored on the socket slot */
+				if (ID_A == id && a.reg[id]) continue;	/* re-add explored on the socket slot and on the timer (other flag set = re-programmed) */
 				if (id < 2 && a.closed[id] && 0) continue;
 				b = a; b.reg[id] = 1; b.ev[id] = (ID_T == id) ? TP_EV_TIMER : e;
 				PUSH(S_ADD, id, b.ev[id], flagset[f]);
